@@ -183,6 +183,7 @@ type BlockRow struct {
 // ---------------------------------------------------------------------------
 
 type env struct {
+	importLogs map[string][]ledger.Log
 	srv   *pgfake.Server
 	sys   *systemcontroller.DefaultController
 	drv   *storagedriver.Driver
@@ -223,6 +224,29 @@ func getEnv(every int) (*env, error) {
 	)
 	cur = &env{srv: srv, sys: sys, drv: d, cases: 1}
 	return cur, nil
+}
+
+// exportFor exports the source ledger of an import request with the real Export (sequentially).
+func (e *env) exportFor(names map[string]string, r Req) error {
+	if r.Kind != "import" {
+		return nil
+	}
+	src, err := e.sys.GetLedgerController(context.Background(), names[r.From])
+	if err != nil {
+		return err
+	}
+	var logs []ledger.Log
+	if err := src.Export(context.Background(), ledgercontroller.ExportWriterFn(func(_ context.Context, log ledger.Log) error {
+		logs = append(logs, log)
+		return nil
+	})); err != nil {
+		return err
+	}
+	if e.importLogs == nil {
+		e.importLogs = map[string][]ledger.Log{}
+	}
+	e.importLogs[r.Task+"/"+r.From] = logs
+	return nil
 }
 
 func closeEnv() {
@@ -419,26 +443,14 @@ func perform(ctx context.Context, e *env, ctrl ledgercontroller.Controller, name
 			resp.Err, resp.Msg = classifyErr(err), errMsg(err)
 		}
 	case "import":
-		src, err := e.sys.GetLedgerController(context.Background(), names[r.From])
-		if err != nil {
-			resp.Err, resp.Msg = "other", errMsg(err)
-			return
-		}
-		// export first (sequentially, outside the scheduler), then feed the import
-		var logs []ledger.Log
-		if err := src.Export(context.Background(), ledgercontroller.ExportWriterFn(func(_ context.Context, log ledger.Log) error {
-			logs = append(logs, log)
-			return nil
-		})); err != nil {
-			resp.Err, resp.Msg = "other", errMsg(err)
-			return
-		}
+		// the stream was exported beforehand (exportFor), outside the scheduler
+		logs := e.importLogs[r.Task+"/"+r.From]
 		ch := make(chan ledger.Log, len(logs)+1)
 		for _, l := range logs {
 			ch <- l
 		}
 		close(ch)
-		err = ctrl.Import(ctx, ch)
+		err := ctrl.Import(ctx, ch)
 		resp.Err, resp.Msg = classifyErr(err), errMsg(err)
 	case "blocks":
 		l := names[r.Ledger]
@@ -491,6 +503,12 @@ func RunCase(in In) (out Out) {
 		out.SetupResps = append(out.SetupResps, perform(ctx, e, ctrl, names, r))
 	}
 	// the tasks
+	for _, r := range append(append([]Req{}, in.Reqs...), in.Post...) {
+		if err := e.exportFor(names, r); err != nil {
+			out.Err = "export: " + err.Error()
+			return
+		}
+	}
 	ctrls := map[string]ledgercontroller.Controller{}
 	if !in.FetchInTask {
 		for _, r := range in.Reqs {
